@@ -508,6 +508,33 @@ fn valid_morphism<S: DSym, T: DSym>(a: &S, b: &T, m: &[usize]) -> Option<String>
         for i in 0..a.dim() { if a.m(i, i + 1, d) != b.m(i, i + 1, m[d]) { return Some(format!("degree m({},{}) differs at {} -> {}", i, i + 1, d, m[d])); } } }
     None
 }
+// the automorphism list against brute force over all permutations of the chambers (connected complete symbols of at most 6 chambers, both
+// symbol representations): exactly the operation-commuting, degree-preserving bijections
+fn check_c04_automorphisms() {
+    fn perms_of(n: usize) -> Vec<Vec<usize>> { all_perms(n) }
+    let mut syms: Vec<PartialDSym> = corpus().into_iter().filter(|d| d.is_complete() && d.size() <= 6 && reach(d, &(0..=d.dim()).collect::<Vec<_>>(), 1).len() == d.size()).collect();
+    for s in ["<1.1:4:2 4,1 3 4,1 2 3 4:4,3 4 3>", "<1.1:2:2,1 2,1 2:4,3 4>", "<1.1:4:2 4,3 4,4 3:4,4>", "<1.1:6:2 4 6,6 3 5,2 4 6:3,3>"] { if let Ok(d) = s.parse::<PartialDSym>() { syms.push(d); } }
+    for ds in syms {
+        let (n, dim) = (ds.size(), ds.dim());
+        let mut exp: BTreeSet<Vec<usize>> = BTreeSet::new();
+        for p in perms_of(n) {
+            let m: Vec<usize> = std::iter::once(0).chain(p.iter().map(|&x| x + 1)).collect();
+            let ok = (1..=n).all(|d| (0..=dim).all(|i| ds.op(i, d).map(|e| m[e]) == ds.op(i, m[d])) && (0..dim).all(|i| ds.m(i, i + 1, d) == ds.m(i, i + 1, m[d])));
+            if ok { exp.insert(m); }
+        }
+        let txt = format!("{}", ds);
+        match quiet(|| ds.automorphisms()) {
+            Err(e) => falsified("DSet::automorphisms", txt.clone(), format!("panic {}", e)),
+            Ok(a) => { let got: BTreeSet<Vec<usize>> = a.iter().cloned().collect(); if got != exp || got.len() != a.len() { falsified("DSet::automorphisms", txt.clone(), format!("{:?}, brute force over all permutations gives {:?}", a, exp)); } }
+        }
+        if let Ok(sd) = quiet(|| SimpleDSym::from(ds.clone())) {
+            match quiet(|| sd.automorphisms()) {
+                Err(e) => falsified("DSet::automorphisms (SimpleDSym)", txt.clone(), format!("panic {}", e)),
+                Ok(a) => { let got: BTreeSet<Vec<usize>> = a.iter().cloned().collect(); if got != exp || got.len() != a.len() { falsified("DSet::automorphisms (SimpleDSym)", txt.clone(), format!("{:?}, brute force over all permutations gives {:?}", a, exp)); } }
+            }
+        }
+    }
+}
 fn check_c04() {
     let c = corpus();
     for a in &c { for b in &c { if a.dim() != b.dim() || a.size() > 4 || b.size() > 4 { continue; }
@@ -1431,7 +1458,7 @@ fn main() {
     std::panic::set_hook(Box::new(|_| {}));
     start_watchdog();
     match prop.as_str() {
-        "C01" => check_c01(), "C02" => { check_c02(); check_c02_graph(); check_c02_graph_partial(); check_c02_plain_r(); check_c02_mutators(); }, "C04" => { check_c04(); check_c04_minimal(); }, "C05" => { check_c05(); check_c05_covers(); check_c05_universal(); check_c05_count(); if thorough() { check_c05_sweep(); } },
+        "C01" => check_c01(), "C02" => { check_c02(); check_c02_graph(); check_c02_graph_partial(); check_c02_plain_r(); check_c02_mutators(); }, "C04" => { check_c04(); check_c04_automorphisms(); check_c04_minimal(); }, "C05" => { check_c05(); check_c05_covers(); check_c05_universal(); check_c05_count(); if thorough() { check_c05_sweep(); } },
         "C10" => check_c10(), "C11" => { check_c11(); check_c11_random(); check_c11_exhaustive(); check_c11_small_groups(); }, "C18" => { check_c18(); check_c18_exact(); check_c18_shapes(); check_c18_shapes_rational(); check_c18_modular(); }, "C20" => { check_c20(); check_c20_unions(); }, "C13" => { check_c13(); check_c13_large(); },
         _ => { eprintln!("unknown property"); std::process::exit(2); }
     }
